@@ -186,6 +186,8 @@ func c02(tier string) []*explore.Scenario {
 	}
 	// a failed stream call (of the caller's own making) followed by walking away must not stall the connection's other calls
 	out = append(out, failedCallAbandoned("C02", "recv-into-non-message", 1), failedCallAbandoned("C02", "send-unencodable", 1))
+	// over the HTTP transport: a POST whose response is lost must not lead to a duplicated message
+	out = append(out, httpResponseLost("C02"))
 	out = append(out, apiSeqs("C02", tier)...)
 	out = append(out, handlerSeqs("C02", tier)...)
 	return out
